@@ -3,6 +3,7 @@ package anthropic
 import (
 	"context"
 	"encoding/json"
+	"errors"
 	"fmt"
 	"io"
 	"net/http"
@@ -27,6 +28,11 @@ func (t *Translator) TransformRequest(ctx context.Context, r *http.Request) (*tr
 
 	if err := decoder.Decode(&anthropicReq); err != nil {
 		return nil, fmt.Errorf("failed to parse Anthropic request: %w", err)
+	}
+	// Decode stops after the first JSON value: a body with anything but white space after it
+	// is not a JSON document and must not be forwarded as if it were
+	if _, err := decoder.Token(); !errors.Is(err, io.EOF) {
+		return nil, fmt.Errorf("failed to parse Anthropic request: unexpected data after the JSON document")
 	}
 
 	if err := anthropicReq.Validate(); err != nil {
